@@ -295,9 +295,8 @@ def cells(tier):
             for prepat in PATTERNS:
                 for argpat in PATTERNS:
                     for form in ("kw", "point"):
-                        if form == "point" and (quick or entry in ("set_axis", "auto_home")):
-                            if not (entry == "move" and prepat == (True, True, True)):
-                                continue
+                        if form == "point" and quick and prepat != (True, True, True):
+                            continue
                         if quick and prepat not in ((True, True, True), (True, False, True),
                                                     (False, False, False)):
                             continue
